@@ -209,14 +209,17 @@ def part_b(case: dict, rng) -> tuple[list[dict], dict, bool]:  # noqa: ANN001
     t_end = rng.choice([1.0, 2.5, 5.0])
     second = rng.random() < 0.6  # parameter change between two segments: the Jacobian must follow
     how_second = rng.choice(["simulator", "model", "protocol"])
+    # the model's own start values, handed over as `y0` with the names in another order than the model declares them
+    y0_other_order = dict(reversed(list(net.y0.items()))) if len(net.variables) > 1 and rng.random() < 0.5 else None
+    counters["y0_given_in_another_key_order"] = int(y0_other_order is not None)
     results = {}
     jac_used = False
-    ctx = {"kind": kind, "net": net.to_json(), "t_end": t_end, "two_segments": second, "second_through": how_second if second else None}
+    ctx = {"kind": kind, "net": net.to_json(), "t_end": t_end, "two_segments": second, "second_through": how_second if second else None, "y0_in_another_key_order": y0_other_order is not None}
     for method in ("Radau", "BDF", "LSODA"):
         for uj in (False, True):
             model = rm.build(spec)
             with _capture() as logs:
-                sim = Simulator(model, integrator=partial(Scipy, method=method), use_jacobian=uj)
+                sim = Simulator(model, integrator=partial(Scipy, method=method), use_jacobian=uj, **({"y0": dict(y0_other_order)} if y0_other_order else {}))
             cnt = None
             if uj:
                 jf = getattr(sim.integrator, "jacobian", None)
